@@ -140,8 +140,26 @@ def op_convert(op):
     return {"r": "OK:" + _sha(out), "len": len(out)}
 
 
+PLANT = False
+PROBED = [0, 0]     # paths looked for in vain, files planted
+DECOY = b"string_configs:\n  strname_to_size:\n    A$: 10\n    N$: 5\n    D$(): 64\n"
+
+
 def op_cli(op):
-    """decb_to_b09.start() on files in the simulated file system, or on the std streams."""
+    """decb_to_b09.start() on files in the simulated file system, or on the std streams.
+    In a process whose environment says so, every path below the working directory that the
+    tool looked for in vain (none, on the unchanged tree: it opens what argv names and
+    nothing else) exists in a second run, and that run's answer is the one reported: a
+    file that merely lies in the directory the tool is started from must change nothing."""
+    resp, misses = _cli_once(op, ())
+    PROBED[0] += len(misses)
+    if PLANT and misses:
+        resp, _ = _cli_once(op, misses)
+        PROBED[1] += len(misses)
+    return resp
+
+
+def _cli_once(op, plant):
     inp = "/simfs/" + op["name"]
     outp = "/simfs/out.b09"
     argv = list(op["flags"])
@@ -150,6 +168,8 @@ def op_cli(op):
     w = World(stdin_data=op["text"].encode("utf-8") if use_stdin else None,
               vcwd="/simfs/cwd" + os.getcwd().rstrip("/"), tty=TTY)
     with w:
+        for path in plant:
+            w.fs.put(path, DECOY)
         if not use_stdin:
             w.fs.put(inp, op["text"].encode("utf-8"))
         if op.get("config") is not None:
@@ -166,9 +186,10 @@ def op_cli(op):
         o = run_tool(w, "decb_to_b09", argv + ["-" if use_stdin else inp, "-" if use_stdout else outp],
                      10 ** 12)
         out = w.stdout_bytes() if use_stdout else w.fs.get(outp)
+        misses = [m for m in w.fs.misses if m not in (inp, outp, "/simfs/cfg.yaml")]
     if o.exit != "ok":
-        return {"r": "REFUSED:" + str(o.detail)}
-    return {"r": "OK:" + _sha(out if out is not None else b"<none>"), "len": len(out or b"")}
+        return {"r": "REFUSED:" + str(o.detail)}, misses
+    return {"r": "OK:" + _sha(out if out is not None else b"<none>"), "len": len(out or b"")}, misses
 
 
 def op_decode(op):
@@ -184,9 +205,10 @@ OPS = {"convert": op_convert, "cli": op_cli, "decode": op_decode}
 
 
 def main():
-    global PERM_SEED, TTY
+    global PERM_SEED, TTY, PLANT
     PERM_SEED = int((hist.get("penv") or {}).get("perm_seed", 0))
     TTY = bool((hist.get("penv") or {}).get("tty"))
+    PLANT = bool((hist.get("penv") or {}).get("plant"))
     from sim import decsim
     decsim.TTY_OF_PROCESS = TTY
     decsim.VCWD_OF_PROCESS = "/simfs/cwd" + os.getcwd().rstrip("/")
@@ -202,7 +224,7 @@ def main():
         out.append(res)
     flags = {"hash_randomization": sys.flags.hash_randomization,
              "PYTHONHASHSEED": os.environ.get("PYTHONHASHSEED"),
-             "probe": hash("coco-tools") & 0xFFFF}
+             "probe": hash("coco-tools") & 0xFFFF, "looked_for_in_vain": PROBED[0], "planted": PROBED[1]}
     sys.stdout = sys.__stdout__
     print(json.dumps({"responses": out, "process": flags}))
 
